@@ -10,7 +10,11 @@ package console
 // by a successful login, not logged out since, and at most ttl old; in every
 // sliding window at most `limit` attempts per address get past the limiter; every
 // route of the regenerated route table answers 401 without a session unless it is
-// one of the public ones.  Every history is emitted as a Coq term for corr/ConsoleCorr.v.
+// one of the public ones.  Every request also carries client-controlled inputs other
+// than the session cookie (forwarding headers, Host, Origin, Authorization, query-string
+// and header tokens, other cookie names): the client address that bounds login attempts
+// is the connection's peer address (RemoteAddr), and only the session cookie carries a
+// session.  Every history is emitted as a Coq term for corr/ConsoleCorr.v.
 
 import (
 	"context"
@@ -35,6 +39,10 @@ type c38Ev struct {
 	Cookie string `json:"cookie,omitempty"` // none empty tok quoted forged junk double
 	Ref    int    `json:"ref,omitempty"`    // tok/quoted/double: index among the successful logins so far (mod count)
 	D      int64  `json:"d,omitempty"`      // advance, nanoseconds
+	// client-controlled inputs other than the session cookie that an implementation might
+	// consult: xff-single xff-rotating xff-list xff-spoof xff-malformed x-real-ip forwarded
+	// host origin auth-bearer auth-basic query-token hdr-token cookie-other-name
+	Extra []string `json:"extra,omitempty"`
 }
 type c38Case struct {
 	Enabled bool    `json:"enabled"`
@@ -90,13 +98,69 @@ func c38Exec(t *testing.T, cs c38Case) c38Result {
 		loggedOut bool
 	}
 	ref := map[string]*sess{}
-	var issuedTokens []string
 	passed := map[string][]time.Time{}
+	var issuedTokens []string
+	anyToken := func(ref int) string {
+		if len(issuedTokens) == 0 {
+			return "bm8tdG9rZW4teWV0"
+		}
+		return issuedTokens[ref%len(issuedTokens)]
+	}
+	evIndex := 0
+	var evExtra []string
+	evRef := 0
 	do := func(method, path, remote, body string, cookieHeader string) *httptest.ResponseRecorder {
+		tok := anyToken(evRef)
+		for _, x := range evExtra {
+			if x == "query-token" {
+				path += "?token=" + tok + "&" + sessionCookieName + "=" + tok + "&session=" + tok
+			}
+		}
 		req := httptest.NewRequest(method, path, strings.NewReader(body))
 		req.RemoteAddr = remote
 		if cookieHeader != "" {
 			req.Header.Set("Cookie", cookieHeader)
+		}
+		for _, x := range evExtra {
+			switch x {
+			case "xff-single":
+				req.Header.Set("X-Forwarded-For", "203.0.113.7")
+			case "xff-rotating":
+				req.Header.Set("X-Forwarded-For", fmt.Sprintf("198.51.100.%d", evIndex%250+1))
+			case "xff-list":
+				req.Header.Set("X-Forwarded-For", fmt.Sprintf("198.51.100.%d, 10.1.1.1, 172.16.0.9", evIndex%250+1))
+			case "xff-spoof":
+				req.Header.Set("X-Forwarded-For", "10.0.0.2")
+			case "xff-malformed":
+				req.Header.Set("X-Forwarded-For", fmt.Sprintf(" ,not-an-ip-%d;;, ", evIndex))
+			case "x-real-ip":
+				req.Header.Set("X-Real-IP", fmt.Sprintf("192.0.2.%d", evIndex%250+1))
+			case "forwarded":
+				req.Header.Set("Forwarded", fmt.Sprintf("for=192.0.2.%d;proto=https;by=203.0.113.43", evIndex%250+1))
+				req.Header.Set("X-Client-IP", fmt.Sprintf("192.0.2.%d", evIndex%250+1))
+				req.Header.Set("True-Client-IP", fmt.Sprintf("192.0.2.%d", evIndex%250+1))
+			case "host":
+				req.Host = fmt.Sprintf("tenant-%d.evil.example", evIndex)
+				req.Header.Set("X-Forwarded-Host", "localhost")
+			case "origin":
+				req.Header.Set("Origin", "https://evil.example")
+				req.Header.Set("Referer", "https://evil.example/ui/")
+			case "auth-bearer":
+				req.Header.Set("Authorization", "Bearer "+tok)
+			case "auth-basic":
+				req.SetBasicAuth(c38User, c38Pass)
+			case "hdr-token":
+				req.Header.Set("X-Session-Token", tok)
+				req.Header.Set("X-Auth-Token", tok)
+				req.Header.Set(sessionCookieName, tok)
+			case "cookie-other-name":
+				add := "session=" + tok + "; token=" + tok + "; KAFSCALE_UI_SESSION=" + tok
+				if c := req.Header.Get("Cookie"); c != "" {
+					req.Header.Set("Cookie", c+"; "+add)
+				} else {
+					req.Header.Set("Cookie", add)
+				}
+			}
 		}
 		rec := httptest.NewRecorder()
 		mux.ServeHTTP(rec, req)
@@ -141,6 +205,10 @@ func c38Exec(t *testing.T, cs c38Case) c38Result {
 	start := time.Now()
 	for i, ev := range cs.Events {
 		now := time.Now()
+		evIndex, evExtra, evRef = i, ev.Extra, ev.Ref
+		for _, x := range ev.Extra {
+			res.tags["extra:"+x] = true
+		}
 		switch ev.Kind {
 		case "advance":
 			if ev.D > 0 {
@@ -325,8 +393,13 @@ func c38Gen(r *vRand) c38Case {
 		case mode == 1 && x < 50:
 			k := r.Range(6, 26)
 			ip := c38IPs[r.Intn(2)]
+			// the whole burst comes from one peer, which may vary what it claims about itself
+			var burstExtra []string
+			if r.Chance(70) {
+				burstExtra = []string{[]string{"xff-rotating", "xff-list", "x-real-ip", "forwarded", "xff-spoof", "xff-malformed", "host"}[r.Intn(7)]}
+			}
 			for j := 0; j < k; j++ {
-				cs.Events = append(cs.Events, c38Ev{Kind: "login", IP: ip, Login: []string{"bad", "bad", "good", "malformed", "empty", "get"}[r.Intn(6)]})
+				cs.Events = append(cs.Events, c38Ev{Kind: "login", IP: ip, Login: []string{"bad", "bad", "good", "malformed", "empty", "get"}[r.Intn(6)], Extra: burstExtra})
 				if r.Chance(12) {
 					cs.Events = append(cs.Events, c38Ev{Kind: "advance", D: []int64{int64(time.Second), int64(5 * time.Second), int64(20 * time.Second), int64(41 * time.Second)}[r.Intn(4)]})
 				}
@@ -347,8 +420,21 @@ func c38Gen(r *vRand) c38Case {
 			cs.Events = append(cs.Events, c38Ev{Kind: "advance", D: d})
 		}
 	}
+	// every request also carries client-controlled inputs an implementation might consult
+	for i := range cs.Events {
+		ev := &cs.Events[i]
+		if ev.Kind == "advance" || ev.Extra != nil || !r.Chance(60) {
+			continue
+		}
+		for k := r.Range(1, 3); k > 0; k-- {
+			ev.Extra = append(ev.Extra, c38Extras[r.Intn(len(c38Extras))])
+		}
+	}
 	return cs
 }
+
+var c38Extras = []string{"xff-single", "xff-rotating", "xff-list", "xff-spoof", "xff-malformed", "x-real-ip", "forwarded", "host", "origin",
+	"auth-bearer", "auth-basic", "query-token", "hdr-token", "cookie-other-name"}
 
 type c38Route struct {
 	Pattern   string `json:"pattern"`
@@ -415,7 +501,7 @@ func c38Routes(t *testing.T, rep *vReport) {
 }
 
 func TestVerifC38(t *testing.T) {
-	rep := vNewReport("C38", "generated histories (6-40+ events: logins good/bad/empty/malformed/GET from 4 client addresses incl. bursts beyond the limit, POST/GET logout, protected requests and session probes with cookies from {none, empty, issued token (valid / expired / logged out), quoted token, token prefix, forged, other cookie name, two cookies}, clock advances from 1ns to 12h+1ns) through the real NewMux handler under testing/synctest virtual time; plus every route of the regenerated route table probed without a session; a history is non-trivial when it has a successful login and requests in at least two of the classes valid / expired / logged-out / forged-or-empty, or a rate-limited login; distinct = distinct canonical history")
+	rep := vNewReport("C38", "generated histories (6-40+ events: logins good/bad/empty/malformed/GET from 4 client addresses incl. bursts beyond the limit, POST/GET logout, protected requests and session probes with cookies from {none, empty, issued token (valid / expired / logged out), quoted token, token prefix, forged, other cookie name, two cookies}, clock advances from 1ns to 12h+1ns; every request additionally carries generated client-controlled inputs - X-Forwarded-For single/list/rotating/spoofing another client/malformed, X-Real-IP, Forwarded, X-Client-IP, Host, Origin, Authorization bearer/basic, token in the query string, in custom headers and in cookies of other names - while the rate-limit accounting stays keyed on the connection's peer address and the session oracle only honours the session cookie) through the real NewMux handler under testing/synctest virtual time; plus every route of the regenerated route table probed without a session; a history is non-trivial when it has a successful login and requests in at least two of the classes valid / expired / logged-out / forged-or-empty, or a rate-limited login; distinct = distinct canonical history")
 	var coq, jsons []string
 	runOne := func(cs c38Case) {
 		var res c38Result
@@ -471,7 +557,21 @@ func TestVerifC38(t *testing.T) {
 		}
 		burst = append(burst, c38Ev{Kind: "login", IP: c38IPs[1], Login: "good"}, c38Ev{Kind: "advance", D: int64(59 * time.Second)}, c38Ev{Kind: "login", IP: ip, Login: "good"},
 			c38Ev{Kind: "advance", D: int64(time.Second)}, c38Ev{Kind: "login", IP: ip, Login: "good"}, c38Ev{Kind: "request", Cookie: "tok", Ref: 1})
+		rot := []c38Ev{}
+		for i := 0; i < 24; i++ { // one peer, a different X-Forwarded-For on every attempt
+			rot = append(rot, c38Ev{Kind: "login", IP: ip, Login: "bad", Extra: []string{"xff-rotating"}})
+		}
+		for i := 0; i < 24; i++ {
+			rot = append(rot, c38Ev{Kind: "login", IP: c38IPs[1], Login: "bad", Extra: []string{"x-real-ip", "forwarded"}})
+		}
+		elsewhere := []c38Ev{{Kind: "login", IP: ip, Login: "good"}}
+		for _, x := range []string{"auth-bearer", "query-token", "hdr-token", "cookie-other-name", "auth-basic"} { // the token anywhere but the session cookie
+			elsewhere = append(elsewhere, c38Ev{Kind: "request", Cookie: "none", Extra: []string{x}}, c38Ev{Kind: "request", Cookie: "forged", Extra: []string{x}}, c38Ev{Kind: "session", Cookie: "none", Extra: []string{x}})
+		}
+		elsewhere = append(elsewhere, c38Ev{Kind: "logout", Post: true, Cookie: "none", Extra: []string{"auth-bearer", "query-token", "cookie-other-name"}}, c38Ev{Kind: "request", Cookie: "tok", Extra: []string{"host", "origin"}})
 		corpus := []c38Case{
+			{Enabled: true, Events: rot},
+			{Enabled: true, Events: elsewhere},
 			{Enabled: true, Events: []c38Ev{{Kind: "login", IP: ip, Login: "good"}, {Kind: "request", Cookie: "tok"}, {Kind: "advance", D: 12 * h}, {Kind: "request", Cookie: "tok"},
 				{Kind: "advance", D: 1}, {Kind: "request", Cookie: "tok"}, {Kind: "session", Cookie: "tok"}, {Kind: "request", Cookie: "forged"}, {Kind: "request", Cookie: "none"}, {Kind: "request", Cookie: "empty"}}},
 			{Enabled: true, Events: []c38Ev{{Kind: "login", IP: ip, Login: "good"}, {Kind: "login", IP: ip, Login: "good"}, {Kind: "logout", Post: false, Cookie: "tok", Ref: 0}, {Kind: "request", Cookie: "tok", Ref: 0},
